@@ -176,6 +176,7 @@ PROPS = {
               "points of the phase on private data against the shared modules/tables; distinct by descriptor hash; "
               "non-trivial when at least one pair of calls from different threads overlapped in time"),
         require={"all": ["concurrent_calls", "overlapping_call_pairs", "tsan_instrumented_calls", "ro_protected_bytes",
+                         "schedule:free", "schedule:pinned-2cpu", "schedule:yield",
                          "entry_points_observed_concurrently", "overlap_pairs"]},
         assumptions=["gcc ThreadSanitizer happens-before detection (does not see accesses made inside the four .s kernels, "
                      "which only touch caller data)", "in the 'ro' build every allocation made while creating modules and "
